@@ -46,7 +46,7 @@ def tool_cases(draw, name, tier):
         for s in case["srcs"]:
             s["fl"] = draw(st.sampled_from(["agen", "aclass", "aplain", "aclass", "aclass_noclose", "agenlike", "aproxy",
                                              "areiter", "alateclose"]))
-            s["eqsrc"] = draw(st.integers(0, 2)) == 0
+            s["eqsrc"] = draw(st.sampled_from([False] * 2 + [True, "unhashable"]))
             s["falsy"] = draw(st.integers(0, 3)) == 0
             s["susp"] = draw(st.integers(1, 2))
             s["cret"] = draw(st.sampled_from([None, None, True]))
